@@ -16,6 +16,9 @@ EXPLANATION = (
     "indices inside [_start, _end] (small interval analysis over the index arguments). R16.4 cache coherence: shared "
     "with C15 (reverse paths invalidate the cached lengths). Not decided: index arithmetic for all window shapes, "
     "involution and connectivity of the result (history/value dependent)."
+    ' The per-class effect is computed on every path through reverse(): an `if` forks the symbolic state and'
+    ' each path must be a reversal (an early return that skips the exchange or the negation of the sweep is'
+    ' reported with its condition).'
 )
 TECHNIQUE = (
     "static analysis (no execution): field effects of every reverse() evaluated symbolically (swap/negate); alias-aware structural rules for reversal order and re-linking; window confinement of validator indices; cache coherence"
@@ -184,7 +187,8 @@ def order(ctx):
     saved = [tg.id for tg, v, n in bindings(fn) if isinstance(tg, ast.Name) and al.canon(v) == first_start]
     rebinds = [x for x in fn.body if isinstance(x, ast.Assign) and attr_chain(x.targets[0]) == ["self", "_segments"]]
     restores = [x for x in fn.body if isinstance(x, ast.Assign) and ast.unparse(x.targets[0]).replace(" ", "") == first_start and isinstance(x.value, ast.Name) and x.value.id in saved]
-    ok = bool(saved) and len(rebinds) == 1 and bool(restores) and all(r.lineno > rebinds[0].lineno for r in restores)
+    pos = {id(x): k for k, x in enumerate(fn.body)}  # statement order (line numbers of inlined helper statements are not comparable)
+    ok = bool(saved) and len(rebinds) == 1 and bool(restores) and all(pos[id(r)] > pos[id(rebinds[0])] for r in restores)
     ctx.ob("R16.2", "Path.reverse[first start kept]", ok, "saved in %s" % saved, fn.lineno, "the start of the first segment (a Move's origin) is carried over")
     takes = len(rebinds) == 1 and acc is not None and attr_chain(rebinds[0].value) == [acc, "_segments"]
     last = fn.body[-1]
@@ -312,6 +316,28 @@ def swap_loop(ctx, rs):
                     and Alg().ev(up.args[1]) == atom(hi_v[0]) + const(1) and Alg().ev(down.args[1]) == atom(lo_v[0]) - const(1) and Alg().ev(down.args[2]) == const(-1)
             except Uninterpreted:
                 rng = False
+            # the other spelling: the number of rounds is computed up front - n = (hi - lo) // 2 + 1 rounds (0 or fewer when
+            # hi < lo), range(lo, lo + n) against range(hi, hi - n, -1) - and no stop test is needed
+            counted = False
+            if not rng and len(up.args) == 2 and len(down.args) == 3:
+                defs_ = {tg.id: v for tg, v, n_ in bindings(rs) if isinstance(tg, ast.Name)}
+
+                def res_(e):
+                    return defs_.get(e.id, e) if isinstance(e, ast.Name) and e.id in defs_ and e.id not in idx.get(P[1], []) + idx.get(P[2], []) else e
+
+                lo_n, hi_n = getattr(up.args[0], "id", None), getattr(down.args[0], "id", None)
+                if lo_n in idx.get(P[1], []) and hi_n in idx.get(P[2], []):
+                    def is_n(e):
+                        e = res_(e)
+                        return isinstance(e, ast.BinOp) and isinstance(e.op, ast.Add) and isinstance(e.right, ast.Constant) and e.right.value == 1 \
+                            and isinstance(e.left, ast.BinOp) and isinstance(e.left.op, ast.FloorDiv) and isinstance(e.left.right, ast.Constant) and e.left.right.value == 2 \
+                            and isinstance(e.left.left, ast.BinOp) and isinstance(e.left.left.op, ast.Sub) and getattr(e.left.left.left, "id", None) == hi_n \
+                            and getattr(e.left.left.right, "id", None) == lo_n
+
+                    u1, d1, d2 = up.args[1], down.args[1], down.args[2]
+                    counted = isinstance(u1, ast.BinOp) and isinstance(u1.op, ast.Add) and getattr(u1.left, "id", None) == lo_n and is_n(u1.right) \
+                        and isinstance(d1, ast.BinOp) and isinstance(d1.op, ast.Sub) and getattr(d1.left, "id", None) == hi_n and is_n(d1.right) \
+                        and ast.unparse(u1.right) == ast.unparse(d1.right) and isinstance(d2, ast.UnaryOp) and isinstance(d2.op, ast.USub) and getattr(d2.operand, "value", None) == 1
             stop = [x for x in fl.body if isinstance(x, ast.If) and len(x.body) == 1 and isinstance(x.body[0], ast.Break) and isinstance(x.test, ast.Compare) and len(x.test.ops) == 1
                     and isinstance(x.test.left, ast.Name) and isinstance(x.test.comparators[0], ast.Name)
                     and ((x.test.left.id == i_ and x.test.comparators[0].id == j_ and isinstance(x.test.ops[0], ast.Gt)) or (x.test.left.id == j_ and x.test.comparators[0].id == i_ and isinstance(x.test.ops[0], ast.Lt)))]
@@ -335,7 +361,7 @@ def swap_loop(ctx, rs):
             if len(guarded) == 1:
                 pairs = [(al.canon(tg), getattr(v, "id", None)) for x in guarded[0].body for tg, v in split_tuple_assign(x)]
                 swap = any(rev_call_(x, back) for x in guarded[0].body) and ("%s[%s]" % (LST, i_), back) in pairs and ("%s[%s]" % (LST, j_), front) in pairs
-            ok = rng and len(stop) == 1 and front is not None and back is not None and uncond and swap
+            ok = ((rng and len(stop) == 1) or (counted and not stop)) and front is not None and back is not None and uncond and swap
             detail = "paired ranges ok=%s stop test=%d front=%s back=%s unconditional reverse=%s guarded swap=%s" % (rng, len(stop), front, back, uncond, swap)
     if len(loops) == 1 and isinstance(loops[0].test, ast.Compare) and len(loops[0].test.ops) == 1 and isinstance(loops[0].test.left, ast.Name) and isinstance(loops[0].test.comparators[0], ast.Name):
         t = loops[0].test
